@@ -18,6 +18,11 @@ EXPLANATION = ('VM-DISPATCH, DS-COMPOSE, V2-GATES, DS-ASM-MP, FLAG-PROP, DRV-SEQ
          ' LW-VALUE (rvv), CFR-SIB / X86-CFR-BITS.'
          ' X86-MEM-HSEM, X86-FP-HSEM.')
 
+CLAIM += (' Hand-written runtime of the vector back-end: the dataset-item routine called by the light-mode dataset read changes no VM register and no table pointer the program still needs (RVV-RT-PRESERVE), and a constant register that the prologue loads from randomx_masks is never reloaded from another entry inside the loop (RVV-RT-CONST); the vector SuperscalarHash emitter and the vector memory handlers are validated on terms (RVV-SS-HSEM, RV-MEM-HSEM on the vector back-end).')
+EXPLANATION += ' RVV-RT-PRESERVE, RVV-RT-CONST, RVV-SS-HSEM, RV-MEM-HSEM (rvv).'
+
+TECHNIQUE += '; register-preservation and constant-reload analysis over the disassembly of the hand-written vector runtime'
+
 
 def run(ctx, R):
     F = astq.Facts(ctx, 'K0')
